@@ -330,6 +330,57 @@ theorem remove_missing_exact {q : Q} (h : Reachable q) (ids : List Nat) :
   have hs := removeMissing_spec q ids (reachable_wf h)
   exact ⟨hs.2.1, fun hne => ⟨(hs.2.2.1 hne).1, (hs.2.2.1 hne).2.1, (hs.2.2.1 hne).2.2.1⟩⟩
 
+/-- **the executable remove-missing clause of the driver holds of the model**: `rmOk`, the predicate the check
+    evaluates on the implementation's states around every `MaybeRemoveMissing`, is true of every reachable model state -/
+theorem rmOk_model {q : Q} (h : Reachable q) (ids : List Nat) :
+    rmOk q (removeMissing q ids).1 ids (removeMissing q ids).2 = true := by
+  have hw := reachable_wf h
+  have hs := removeMissing_spec q ids hw
+  unfold rmOk
+  by_cases hlen : q.items.length = ids.length
+  · rw [hs.2.1 hlen]; simp [hlen]
+  · have hne : (q.items.length == ids.length) = false := by simpa using hlen
+    rw [hne]
+    obtain ⟨htr, hrem, hpq, hsame⟩ := hs.2.2.1 hlen
+    have hw' := hs.1
+    simp only [Bool.false_eq_true, if_false, Bool.and_eq_true, List.all_eq_true, beq_iff_eq, Bool.or_eq_true, Bool.not_eq_true']
+    refine ⟨⟨⟨⟨⟨⟨?_, ?_⟩, ?_⟩, ?_⟩, ?_⟩, ?_⟩, ?_⟩
+    · intro x hx
+      have hxi := mem_items_itemD hw.1 hx
+      rw [htr x.id, hxi.2]; simp
+    · intro y hy
+      have hyi := mem_items_itemD hw'.1 hy
+      have hty := hyi.2
+      rw [htr y.id] at hty
+      simp only [Bool.and_eq_true] at hty
+      refine ⟨hty.1, ?_⟩
+      have := hsame y.id hty.2
+      rw [hyi.1] at this
+      simp only [eqModIdx, beq_iff_eq]; exact this.symm
+    · intro id hid
+      have := (hrem id).mp hid
+      exact ⟨this.1, this.2⟩
+    · intro x hx
+      have hxi := mem_items_itemD hw.1 hx
+      cases hc : ids.contains x.id
+      · right
+        exact List.contains_iff_mem.mpr ((hrem x.id).mpr ⟨hxi.2, hc⟩)
+      · left; rfl
+    · -- the reported ids are distinct: they are a sublist of the (distinct) map keys
+      apply idsNodup_of_nodup
+      show ((removeMissing q ids).2).Nodup
+      unfold removeMissing
+      rw [if_neg hlen]
+      exact (List.filter_sublist).nodup hw.1.keys
+    · intro id hid
+      have := (hpq id).mp ((contains_iff_inPq _ _).mp (List.contains_iff_mem.mpr hid))
+      exact ⟨this.2, (contains_iff_inPq _ _).mpr this.1⟩
+    · intro id hid
+      cases hc : ids.contains id
+      · left; rfl
+      · right
+        exact (contains_iff_inPq _ _).mpr ((hpq id).mpr ⟨(contains_iff_inPq _ _).mp (List.contains_iff_mem.mpr hid), hc⟩)
+
 /-- after `MaybeRemoveMissing ids` ran and every id of `ids` was added, the queue tracks exactly `ids` -/
 theorem tracks_exactly_after_round {q : Q} (h : Reachable q) (ids : List Nat) (hne : q.items.length ≠ ids.length)
     (adds : List (Opts × Int)) (hadds : adds.map (·.1.rid) = ids) (b : Nat) :
